@@ -72,6 +72,8 @@ func main() {
 		os.Exit(runCheck(os.Args[2], os.Args[3]))
 	case "replay":
 		os.Exit(runReplay(os.Args[2]))
+	case "selftest":
+		os.Exit(runSelfTest())
 	case "gen":
 		// gen <prop> <outdir> <ntraces>: write one chunk of random traces (profiling aid)
 		os.MkdirAll(os.Args[3], 0o777)
